@@ -84,6 +84,18 @@ def family(tier, rnd):
                      ("bare-call", ex(call("nofunc"))), ("bare-bin", ex(bin_("div", var("V9"), num(0)))), ("bare-list", ex(lst(var("NOPE"))))):
         p = prog([decl("V9", lst(num(1))), mark("a"), st, mark("dead")]); p["main"][2]["pre"] = PRE["cmt"]
         p["tag"] = "bare-stmt/" + tagx; P.append(p)
+    # ... and a statement that is nothing but an object creation: unknown type, faulting argument, fault inside the constructor (also one
+    # call deeper, and with the creating statement inside a method)
+    KC = cls("KC", [("p", num(1))], ctor=func("KC", ["A"], [mark("ctor"), ex(asg(this("p"), bin_("div", num(10), var("A")))), mark("ctor-ok")]))
+    for tagx, st in (("new-unknown-type", lambda: ex(new("NoSuchType"))), ("new-faulting-argument", lambda: ex(new("KC", idx(var("V9"), num(7))))),
+                     ("new-constructor-faults", lambda: ex(new("KC", num(0)))), ("new-wrong-arity", lambda: ex(new("KC", num(1), num(2))))):
+        for prek in ("none", "cmt", "mix"):
+            for inside in (False, True):
+                body = [decl("V9", lst(num(1))), ex(new("KC", num(5))), mark("a"), st(), mark("dead")]
+                if PRE[prek]: body[3]["pre"] = PRE[prek]
+                p = prog(body, classes=[KC]) if not inside else prog([mark("s"), disp(call("mk")), mark("dead2")], classes=[KC], funcs=[func("mk", [], body + [ret(num(1))])])
+                p["eol"] = rnd.choice(["", "crlf"]); p["tag"] = "bare-stmt/%s/%s/%s/%s" % (tagx, prek, "in-method" if inside else "top", p["eol"] or "lf")
+                P.append(p)
     # across module files: the chain names, for every active call, the FILE (module) and the call-site line in that file
     LV = {1: [[1]], 2: [[0, 1], [1, 1], [1, 2]], 3: [[0, 1, 2], [1, 1, 2], [1, 2, 2], [0, 0, 1]]}
     for depth in (1, 2, 3):
